@@ -800,6 +800,13 @@ def fr7(ctx):
     rdr = [x for x in ctx.f.bodies.values() if not x.generic_dup() and x.path.startswith('frame::reader::FrameReader')]
     room = {x.id for x in rdr if any(cs.orig.endswith('BlockRead::next_block') or cs.path.endswith('::next_block') for cs in x.calls)}
     peek = {x.id for x in rdr if 'frame::header::Header' in x.ret_ty and any((op_const_named(o) or '').endswith('HEADER_LEN') for blk in x.blocks for st in blk['stmts'] if st['k'] == 'assign' for o in rvalue_operands(st['rv']))}
+    # a peek body that makes the room check itself before it cuts (the two merged into one function) needs no guard outside
+    for x in rdr:
+        if x.id in peek:
+            cuts = [cs.point for cs in x.calls if re.search(r'ops::Index(Mut)?<', cs.name)]
+            rms = [cs.point for cs in x.calls if cs.node in room]
+            if cuts and rms and all(any(x.dominates(r_, c_) for r_ in rms) for c_ in cuts):
+                peek = peek - {x.id}
     for b in rdr:
         pk = [cs for cs in b.calls if cs.node in peek]
         if not pk or b.id in peek:
@@ -869,6 +876,23 @@ def fr5b(ctx):
                             t_len |= fl.forward(set(fl.call_result_nodes(cs)), skip_mem=True)
                     if fl.op_tainted(a, t_len) or fl.op_tainted(bb, t_len):
                         len_adv.append(p)
+        # the header advance may sit in the callee that decodes the header (peek and consume merged into one function):
+        # a callee all of whose successful exits are dominated by a `cursor (+)= .. HEADER_LEN ..` store of its own
+        for cs in b.calls:
+            cb = ctx.f.bodies.get(cs.node) if cs.node is not None else None
+            if cb is None or not cb.path.startswith(FRD) or 'frame::header::Header' not in cb.ret_ty:
+                continue
+            cadv = []
+            for (p2, pl2, rv2) in stores_to(cb, 'FrameReader', 'cursor'):
+                if rv2['k'] != 'use' or rv2['op']['k'] not in ('copy', 'move'):
+                    continue
+                af = cb.affine(rv2['op'], phi=True)
+                hl = ctx.f.const_value('frame::header::HEADER_LEN')
+                if af is not None and hl is not None and af[1] == hl and list(af[0].items()) in ([(('mem', 'FrameReader.cursor'), 1)],):
+                    cadv.append(p2)
+            oks = [e2['point'] for e2 in cb.ok_exits()]
+            if cadv and oks and all(any(cb.dominates(p2, e2) for p2 in cadv) for e2 in oks):
+                hdr_adv.append(cs.point)
         for e in b.exits():
             if e['kind'] == 'ok':
                 n += 1
